@@ -25,7 +25,7 @@ ASSUMPTIONS = GEO_ASSUMPTIONS + ["power: quick catches gross law errors (wrong t
 
 
 def budget(tier):
-    return {"cases": 400 if tier == "quick" else 4000, "wall": 900 if tier == "quick" else 3400, "shrink": 12, "det_legs": 3}
+    return {"cases": 400 if tier == "quick" else 4000, "wall": 900 if tier == "quick" else 3000, "shrink": 12, "det_legs": 3}
 
 
 def gen_case(seed, tier="quick"):
